@@ -8,6 +8,7 @@ from productmd.modules import Modules
 from productmd.extra_files import ExtraFiles
 from domains import KINDS, make_value, in_domain
 import C06
+import C09
 import io
 import productmd.treeinfo
 from productmd.common import SortedConfigParser
@@ -269,6 +270,10 @@ def tree_delete(sym, section, option, k):
     sym.check("missing-required-key-rejected", raised)
 
 
+# a document holding two images of equal identity and different checksums (any placement) violates the identity rule of format >= 1.1
+images_identity_collision = C09.load_collision
+
+
 COMPOSE_LEAVES = [("id", "compose-id", 12), ("type", "compose-type", 12), ("date", "date", 9), ("respin", "int", 0), ("label", "label", 16)]
 RELEASE_LEAVES = [("name", "str", 3), ("short", "str", 3), ("version", "release-version", 6), ("type", "release-type", 16)]
 VARIANT_LEAVES = [("id", "variant-id", 6), ("name", "str-nonblank", 3), ("type", "variant-type", 16)]
@@ -322,6 +327,9 @@ def jobs(tier, seed):
     for fmt, paths in required.items():
         for p in paths:
             out.append({"harness": "delete_key", "params": {"fmt": fmt, "path": p, "k": k}})
+    for cell2 in (0, 1, 2):
+        for wu in (False, True):
+            out.append({"harness": "images_identity_collision", "params": {"cell2": cell2, "with_unified": wu}})
     # treeinfo
     arch = ["x86_64", "src", "s390x"][k % 3]
     for section, option, rule, maxlen, getter in [
@@ -346,7 +354,7 @@ def jobs(tier, seed):
 
 META = {
     "expected_covers": {"corrupt_leaf": ["corrupted"], "header_type": ["loaded"], "header_version": ["loaded"], "delete_key": ["loaded"],
-                        "tree_corrupt_option": ["corrupted"], "tree_header": ["loaded"], "tree_version": ["loaded"], "tree_delete": ["loaded"]},
+                        "images_identity_collision": ["loaded"], "tree_corrupt_option": ["corrupted"], "tree_header": ["loaded"], "tree_version": ["loaded"], "tree_delete": ["loaded"]},
     "assumptions": [
         "base documents are produced by the real writer from valid objects (nested/layered-product variants, three images, one payload entry); one corruption at a time",
         "oracle: the load raises, or the value found in the loaded object is again inside the documented domain (the readers normalise e.g. numeric strings, "
